@@ -387,7 +387,7 @@ func mk(op Op, w uint8, signed bool, args ...*Term) *Term {
 		for i, a := range args {
 			av[i] = a.c
 		}
-		return &Term{op: OpConst, w: w, signed: signed, c: evalOp(op, w, signed, av, args) & mask(w)}
+		return &Term{op: OpConst, w: w, signed: signed, c: evalOp(op, w, signed, av, args) & maskB(w)}
 	}
 	switch op {
 	case OpAdd:
